@@ -261,7 +261,7 @@ def main(argv):
 def write_evidence(prop, tier, seed, spec, vcs, infos, und, hres, backends, wall, nviol, note=None):
     proved = [v for v in vcs if vcmod.status(v) == 'proved']
     all_proved = len(proved) == len(vcs) and not und and len(vcs) > 0
-    level = 'proof' if all_proved else 'other'
+    level = spec.get('level', 'proof') if all_proved else 'other'
     samples = [dict(obligation=v.name, status=vcmod.status(v), backend='z3', time_s=round(v.time, 4), kind=v.kind)
                for v in (sorted(vcs, key=lambda v: -v.time)[:8] + [v for v in vcs if vcmod.status(v) != 'proved'][:8])]
     cov = dict(
@@ -275,7 +275,7 @@ def write_evidence(prop, tier, seed, spec, vcs, infos, und, hres, backends, wall
         solver_time_s=round(sum(v.time for v in vcs), 3),
         by_kind={k: sum(1 for v in vcs if v.kind == k) for k in sorted({v.kind for v in vcs})},
         covers=sum(1 for v in vcs if v.expect == 'sat'),
-        explanation=('every obligation generated from the current /repo source was discharged'
+        explanation=(spec.get('level_text', '') + ' -- ' if spec.get('level') == 'other' else '') + ('every obligation generated from the current /repo source was discharged'
                      if all_proved else 'not every obligation was discharged: see samples / functions_undecided') +
                     ('; ' + note if note else ''),
     )
